@@ -88,6 +88,7 @@ int __wrap_sigaction(int signum, const struct sigaction *sa, struct sigaction *o
 
 static int last_forked_slot = -1;
 int mt_fork_fail_next;	/* set by an extension: the next fork() of the library fails with EAGAIN */
+int mt_spawn_fate_next = -1;	/* set by an extension: wait status the next forked child reports before fork() returns to the parent */
 static int spawn_fate = -1;	/* `wspawn w0 exit N|killed N|stop`: status the next forked child reports at once */
 
 pid_t __wrap_fork(void)
@@ -102,6 +103,10 @@ pid_t __wrap_fork(void)
 	i = alloc_child(-1);
 	last_forked_slot = i;
 	mt_log("FORK pid=%d\n", CH[i].pid);
+	if (spawn_fate < 0 && mt_spawn_fate_next >= 0) {
+		spawn_fate = mt_spawn_fate_next;
+		mt_spawn_fate_next = -1;
+	}
 	if (spawn_fate >= 0) {	/* C11: the child changes state before fork() has even returned to the parent */
 		int st = spawn_fate;
 		spawn_fate = -1;
